@@ -17,7 +17,7 @@ pub fn def() -> PropDef {
         run_unit,
         replay,
         required_probes: &["Sqrt_ParityAdjust", "Sqrt_LongInput", "Sqrt_Sticky", "Sqrt_Exact", "Wsr_RoundInside", "Wsr_Carry", "Wsr_CarryNewDigit"],
-        rule: "exhaustive small scope: every n in 1..3000 x scales -2..3 x p 1..4 x 7 modes; then seeded non-negative decimals of 1..2000 digits at scales -2000..2000 of both parities, with dedicated families: inputs longer than 2(p+5) digits, perfect squares t^2, perfect squares +-1 unit in a far-away digit, roots whose digits after the p-th are 5000..0 (exact tie), 5000..0x, 4999..9x (built by squaring a (p+1..p+40)-digit root and perturbing), roots of all nines (carry into a new digit), 10^k; precision p in 1..150 with weight on 1..5 and 100, all 7 modes; every case through sqrt_with_context on value and reference, sqrt_abs / sqrt_copysign on x and -x, sqrt() for the default context; oracle = correctly rounded root from a verified integer square-root bracket, plus the directed-mode inequalities r^2 >= x / r^2 <= x checked separately. distinct = distinct (x, p, mode); non-trivial = the root is not representable in p digits (rounding decides)",
+        rule: "exhaustive small scope: every n in 1..3000 x scales -2..3 x p 1..4 x 7 modes; then seeded non-negative decimals of 1..2000 digits at scales -2000..2000 of both parities, with dedicated families: inputs longer than 2(p+5) digits, perfect squares t^2, perfect squares +-1 unit in a far-away digit (1..120 places down, one in four anywhere down to the 2000-digit limit), roots whose digits after the p-th are 5000..0 (exact tie), 5000..0x, 4999..9x (built by squaring a (p+1..p+40)-digit root and perturbing), roots of all nines (carry into a new digit), 10^k; precision p in 1..150 with weight on 1..5 and 100, all 7 modes; every case through sqrt_with_context on value and reference, sqrt_abs / sqrt_copysign on x and -x, sqrt() for the default context; oracle = correctly rounded root from a verified integer square-root bracket, plus the directed-mode inequalities r^2 >= x / r^2 <= x checked separately. distinct = distinct (x, p, mode); non-trivial = the root is not representable in p digits (rounding decides)",
     }
 }
 
